@@ -72,7 +72,7 @@ func main() {
 		for _, rs := range strings.Split(rulesStr, ",") {
 			kind, arg, _ := strings.Cut(rs, ":")
 			r := &rule{kind: kind}
-			if arg != "" {
+			if arg != "" && kind != "textsub" {
 				r.re = regexp.MustCompile(arg)
 			}
 			switch kind {
